@@ -9,6 +9,7 @@ mod facts;
 mod files;
 mod gen;
 mod librun;
+mod manyrun;
 mod minrun;
 mod mmaprun;
 mod sched;
@@ -58,6 +59,8 @@ fn main() {
         ["trace", "oligopaths", ..] => paths::oligo_paths(arg(&a, 2), arg(&a, 3), &a[4], arg(&a, 5)),
         ["trace", "counter", ..] => ctrrun::free(arg(&a, 2), arg(&a, 3), &a[4], arg(&a, 5)),
         ["trace", "ctrstress", ..] => ctrrun::stress(arg(&a, 2), arg(&a, 3), &a[4], arg(&a, 5)),
+        ["trace", "many", ..] => manyrun::many(arg(&a, 2), &a[3], arg(&a, 4), a.get(5).map(|x| x.as_str()).unwrap_or("all")),
+        ["trace", "covbig", ..] => covrun::big(arg(&a, 2), &a[3]),
         ["trace", "ctrbig", ..] => ctrrun::big(arg(&a, 2), &a[3]),
         ["trace", "coverage", ..] => covrun::trace(arg(&a, 2), arg(&a, 3), &a[4], arg(&a, 5), &a[6]),
         ["trace", "idx", ..] => covrun::idx(arg(&a, 2), arg(&a, 3), &a[4]),
